@@ -110,7 +110,7 @@ def phase2(res, src, pid, label, checks, patch):
             res["ran"]["check_" + c] = {"rc": rc, "wall_s": round(time.time() - t0, 1), "violation_lines": vio, "first_fail": [f[:700] for f in fail]}
             print("check %s: rc=%d %s" % (c, rc, (fail[0][:300] if fail else out.strip().splitlines()[-1][:300])))
     finally:
-        sh("git -C /repo checkout -- .")
+        sh("git -C /repo checkout -- . && git -C /repo clean -fdq -- pkg cmd '*.go'")  # (a patch may add files; e2e/memtest/memtest was untracked before and stays)
     caught = [c for c in checks if res["ran"]["check_" + c]["rc"] == 1]
     res["verdict"] = "caught-by:" + ",".join(caught) if caught else "MISSED"
     return finish(res, src, pid, label, keep=True)
